@@ -300,11 +300,24 @@ fn after_redirect_cell(idx: u64, rec: &mut Rec) {
             }
         }
     }
+    if leaves && idx % 4 == 1 {
+        // the inherited Host stayed behind with the first authority: a Host given to this request is its only one
+        if let Err(e) = flow.header("host", "b.test") {
+            return rec.fail("C17/setup", format!("{:?}", e));
+        }
+        rec.cov("after-redirect/own-host-on-the-new-authority");
+    }
     let mut s = flow.proceed();
     let mut buf = vec![0u8; 4096];
     rec.call();
     let r1 = s.write(&mut buf);
     rec.ev(|| format!("{} (despite={}) framing={} -> {} x{} -> {} request: first write {:?}", method, despite, framing, status, hops, eff.method, r1));
+    if let Ok(n) = &r1 {
+        let hosts = buf[..*n].split(|b| *b == b'\n').filter(|l| l.len() >= 5 && l[..5].eq_ignore_ascii_case(b"host:")).count();
+        if hosts != 1 {
+            return rec.fail("C17/invalid-request-written/two-host", format!("the redirected request went out with {} Host lines", hosts));
+        }
+    }
     rec.cov(&format!("after-redirect/{}->{}", method, eff.method));
     match r1 {
         Ok(n) if n > 0 && s.can_proceed() => {}
